@@ -81,6 +81,65 @@ def run(ck):
         else:
             ck.violation("S2.rawSpace", "S2|rawSpace|unowned-tail", s.where(), "rawSpace() can hand out a writable tail pointer without canAppend()/cow()", fl.witness(s))
 
+    ck.rule("S2b ALIASING: every SBuf method that copies from a caller-supplied buffer (another SBuf's buf(), a char* or a format argument) and may reallocate/shift its own blob "
+            "(lowAppend/rawSpace/assign paths) first pins the source with a Locker on that same source pointer, so self-append/self-assign keep reading valid bytes")
+    pinned = {"SBuf::append": ("const SBuf &", "S"), "SBuf::assign": ("const char *", "S"), "SBuf::vappendf": ("const char *", None), "SBuf::Printf": ("const char *", None)}
+    npinned = 0
+    for fn in fns:
+        if fn.name not in pinned:
+            continue
+        for sigfrag in (pinned[fn.name][0],):
+            if sigfrag not in fn.sig:
+                continue
+            mut = lambda ev: ev.get("e") == "call" and E.strip(ev["x"]).get("f") in (S + "lowAppend", S + "rawSpace", S + "cow", S + "clear", S + "vappendf")
+            lock = lambda ev: ev.get("e") == "decl" and "Locker" in ev.get("t", "")
+            fl_ = ck.flow(fn, markers={"pin": lock})
+            sites_ = fl_.find(mut)
+            if not sites_:
+                continue
+            npinned += 1
+            for s_ in sites_:
+                if s_.passed("pin"):
+                    ck.ok("S2b.source-pinned", s_.where(), "%s(%s): source buffer is pinned by a Locker before '%s'" % (fn.name, fn.sig[:30], s_.desc()[:40]))
+                else:
+                    ck.violation("S2b.source-pinned", "S2b|%s|%s|unpinned" % (fn.name, fn.sig.split(",")[0].replace(" ", "")), s_.where(),
+                                 "%s(%s) can shift/reallocate its blob ('%s') without a Locker on the source: appending an SBuf to itself (or a view of itself) reads moved/freed bytes"
+                                 % (fn.name, fn.sig[:40], s_.desc()[:40]), fl_.witness(s_))
+            # the Locker must pin the parameter's buffer (or our own buffer for format-string methods)
+            for b_ in fn.blocks.values():
+                for ev in b_["ev"]:
+                    if lock(ev):
+                        m_ = E.mentions(ev.get("init"))
+                        want = pinned[fn.name][1]
+                        if want is None or want in m_:
+                            ck.ok("S2b.source-pinned", fn.where(ev["l"]), "Locker(this, %s)" % E.key(E.strip(ev["init"])["a"][-1])[:30])
+                        else:
+                            ck.violation("S2b.source-pinned", "S2b|%s|locker-arg" % fn.name, fn.where(ev["l"]), "the Locker in %s pins %s, not the source parameter" % (fn.name, E.key(ev.get("init"))[:60]))
+    ck.need(npinned >= 4, "C48: only %d source-copying SBuf methods recognised" % npinned)
+
+    ck.rule("S2c operator==: `return true` without comparing bytes only for the same blob AND the same offset AND equal lengths; otherwise the verdict is memcmp(buf(), S.buf(), length()) == 0")
+    eq = facts.fn(S + "operator==")
+    fle = ck.flow(eq)
+    for s_ in ck.sites(fle, ev_return(), "return", 2):
+        x_ = s_.ev.get("x")
+        c_ = E.const(x_)
+        if c_ == 1:
+            same_store = s_.has(E.M(lambda t: E.strip(t).get("op") == "==" and sum(1 for n in E.walk(t) if n.get("k") == "mem" and n.get("m") == "SBuf::store_") == 2, "store_ == S.store_"), True)
+            same_off = s_.has(E.M(lambda t: E.strip(t).get("op") == "==" and sum(1 for n in E.walk(t) if n.get("k") == "mem" and n.get("m") == "SBuf::off_") == 2, "off_ == S.off_"), True)
+            same_len = s_.has(E.M(lambda t: E.strip(t).get("op") == "==" and sum(1 for n in E.walk(t) if n.get("k") == "call" and n.get("f") == "SBuf::length") == 2, "length() == S.length()"), True)
+            if same_store and same_off and same_len:
+                ck.ok("S2c.equality-fast-path", s_.where(), "fast `true` only for identical blob, offset and length")
+            else:
+                ck.violation("S2c.equality-fast-path", "S2c|operator==|fast-true", s_.where(),
+                             "operator== returns true without comparing bytes although blob/offset/length identity is not all established (store %s, offset %s, length %s): "
+                             "two different equal-length views of one blob compare equal" % (same_store, same_off, same_len))
+        elif c_ is None:
+            d_ = ck.local_defs(eq).get(E.strip(x_).get("d"), [x_]) if E.strip(x_).get("k") == "ref" else [x_]
+            if all("memcmp" in E.mentions(t) for t in d_):
+                ck.ok("S2c.equality-slow-path", s_.where(), "otherwise the verdict is the memcmp() result")
+            else:
+                ck.violation("S2c.equality-slow-path", "S2c|operator==|verdict", s_.where(), "operator== returns %s, not a memcmp() verdict" % E.key(x_))
+
     ck.rule("S3 MemBlob::append/appended modify the blob only past Must(willFit(n)); syncSize only with LockCount() <= 1")
     for name, guard in (("MemBlob::append", "MemBlob::willFit"), ("MemBlob::appended", "MemBlob::willFit")):
         fn = facts.fn(name)
